@@ -360,12 +360,15 @@ func scanIndexFile(ctx context.Context, basePath string, fileNum uint32, buckets
 	var pos int64
 	var i int
 	for {
-		if _, err = file.ReadAt(sizeBuffer, pos); err != nil {
-			if err == io.EOF {
+		var n int
+		if n, err = file.ReadAt(sizeBuffer, pos); err != nil {
+			if err == io.EOF && n == 0 {
 				// Finished reading entire index.
 				break
 			}
-			if err == io.ErrUnexpectedEOF {
+			// ReadAt reports io.EOF also when only part of the size prefix
+			// could be read, which means the end of the file is torn.
+			if err == io.EOF || err == io.ErrUnexpectedEOF {
 				log.Errorw("Unexpected EOF scanning index", "file", indexPath)
 				file.Close()
 				// Cut off incomplete data
